@@ -332,16 +332,35 @@ class Tr:
             return '(bindM %s (fun %s => if %s then %s else %s))' % (c, v, v, a, b)
         return '(if %s then %s else %s)' % (c, a, b)
 
+def plain_def(tree, name):
+    """the module-level `def name`, which must be a plain function: a decorator (cache, wrapper, ...) changes what
+    the name denotes without changing the body, and a second definition or a later rebinding of the name replaces it —
+    none of that is translated, so fail closed"""
+    f = find_def(tree, name)
+    if f.decorator_list:
+        raise GenError('%s is decorated (%s): not translated' % (name, ', '.join(ast.unparse(d) for d in f.decorator_list)))
+    for n in ast.walk(tree):
+        if n is f: continue
+        if isinstance(n, (ast.FunctionDef, ast.AsyncFunctionDef, ast.ClassDef)) and n.name == name and n in tree.body:
+            raise GenError('%s is defined more than once' % name)
+        if isinstance(n, (ast.Assign, ast.AugAssign, ast.AnnAssign)):
+            tgts = n.targets if isinstance(n, ast.Assign) else [n.target]
+            for t in tgts:
+                for x in ast.walk(t):
+                    if isinstance(x, ast.Name) and x.id == name and isinstance(x.ctx, ast.Store):
+                        raise GenError('the name %s is rebound by an assignment' % name)
+    return f
+
 def strip_doc(body):
     if body and isinstance(body[0], ast.Expr) and isinstance(body[0].value, ast.Constant) and isinstance(body[0].value.value, str):
         return body[1:]
     return body
 
 def translate(tree, name, params, ret_type, consts):
-    f = find_def(tree, name)
+    f = plain_def(tree, name)
     argn = [a.arg for a in f.args.args]
     if argn != [p for p, _ in params] or f.args.vararg or f.args.kwarg or f.args.kwonlyargs:
-        raise Unsupported('signature of %s: %s' % (name, argn))
+        raise GenError('signature of %s: %s' % (name, argn))
     tr = Tr(params, ret_type, consts)
     try:
         body = tr.block(f.body)
@@ -424,7 +443,7 @@ Definition gen_advance_time_delta (v_timedelta : Z) : M unit :=
 def template(tree, name):
     ref_src, coq = TEMPLATES[name]
     ref = ast.parse(ref_src).body[0]
-    f = find_def(tree, name)
+    f = plain_def(tree, name)
     if ast.dump(f.args) != ast.dump(ref.args) or \
        [ast.dump(x) for x in strip_doc(f.body)] != [ast.dump(x) for x in strip_doc(ref.body)]:
         raise GenError('%s no longer has the recognised shape' % name)
@@ -461,7 +480,7 @@ def generate():
 
 def translate_clear(tree):
     """clear_time_override: utcnow.override_time = None"""
-    f = find_def(tree, 'clear_time_override')
+    f = plain_def(tree, 'clear_time_override')
     body = strip_doc(f.body)
     if f.args.args or len(body) != 1 or not isinstance(body[0], ast.Assign) or ast.unparse(body[0].targets[0]) != 'utcnow.override_time' \
             or not (isinstance(body[0].value, ast.Constant) and body[0].value.value is None):
